@@ -43,7 +43,9 @@ STATE_MEASURE = 'distinct (host kind, certificate situation, insecure, opt-out, 
 HOSTS = [('secure.example', '10.0.7.1', 'name'), ('other.example', '10.0.7.2', 'name'), ('10.0.7.3', '10.0.7.3', 'ipv4'),
          ('[2001:db8::7]', '2001:db8::7', 'ipv6'),
          # a valid DNS name longer than the 64 characters an X.509 commonName may hold (such origins carry the name in the SAN)
-         ('a' * 30 + '.' + 'b' * 30 + '.long-host.example', '10.0.7.5', 'longname')]
+         ('a' * 30 + '.' + 'b' * 30 + '.long-host.example', '10.0.7.5', 'longname'),
+         # a neighbour of the IPv6 literal above (same up to the last group): only ever the second host of a run
+         ('[2001:db8::8]', '2001:db8::8', 'ipv6')]
 _px: Dict[str, Any] = {}
 
 
@@ -70,7 +72,7 @@ def run_one(tape: Any, cfg: Dict[str, Any], forbid: FrozenSet[str] = frozenset()
     with World(tape) as w:
         w.spin_budget_s = 90.0       # real openssl child processes run inside the executor thread
         scen.sched_swarm(w, tape)
-        host, ip, hkind = HOSTS[tape.weighted([4, 2, 2, 1, 1], 'host')]
+        host, ip, hkind = HOSTS[tape.weighted([4, 2, 2, 1, 1, 0], 'host')]
         if hkind == 'longname':
             w.probe('long_host_name')
         if hkind in ('ipv4', 'ipv6') and not g.note('ip_literal_host'):
@@ -167,6 +169,8 @@ def run_one(tape: Any, cfg: Dict[str, Any], forbid: FrozenSet[str] = frozenset()
         if second_host:
             w.probe('second_host')
             host2, ip2, _ = [x for x in HOSTS[:3] if x[0] != host][tape.draw(2, 'host2')]
+            if hkind == 'ipv6' and tape.coin(0.7, 'host2-v6'):
+                host2, ip2, _ = HOSTS[5]
             oc2 = _px[(host2, 'good')]
             sctx2 = ssl.SSLContext(ssl.PROTOCOL_TLS_SERVER)
             sctx2.load_cert_chain(oc2['cert'], oc2['key'])
@@ -178,7 +182,7 @@ def run_one(tape: Any, cfg: Dict[str, Any], forbid: FrozenSet[str] = frozenset()
             cl2 = Peer(w, 'client2', [('sleep', 1.0), ('connect',),
                                       ('send', b'CONNECT ' + hp2 + b' HTTP/1.1\r\nHost: ' + hp2 + b'\r\n\r\n', 'burst'),
                                       ('wait_rx', lambda p: b'\r\n\r\n' in p.rx), ('call', lambda p: p.rx.clear()),
-                                      ('tls_client', cctx2, host2), ('wait_tls',),
+                                      ('tls_client', cctx2, host2.strip('[]')), ('wait_tls',),
                                       ('send', b'GET /2 HTTP/1.1\r\nHost: ' + host2.encode() + b'\r\n\r\n', 'burst'),
                                       ('wait_rx', lambda p: p.rx.endswith(b'second')), ('close',)])
             cl2.connect_fn = h.connector()
